@@ -526,17 +526,17 @@ func refNamesLine(e *verifmc.RefEntry) []byte {
 	return append(line, '\n')
 }
 
-func makeRealCert() []byte {
+func makeRealCert(name string) []byte {
 	k, err := ecdsa.GenerateKey(elliptic.P256(), rand.Reader)
 	if err != nil {
 		panic(err)
 	}
 	tmpl := &stdx509.Certificate{
 		SerialNumber: big.NewInt(42),
-		Subject:      pkix.Name{CommonName: "leaf.example", Organization: []string{"Verif Org"}, Country: []string{"IT"}},
+		Subject:      pkix.Name{CommonName: strings.ToLower(name) + ".leaf.example", Organization: []string{"Verif Org"}, Country: []string{"IT"}},
 		NotBefore:    time.Date(2020, 1, 1, 0, 0, 0, 0, time.UTC),
 		NotAfter:     time.Date(2030, 1, 1, 0, 0, 0, 0, time.UTC),
-		DNSNames:     []string{"leaf.example", "www.leaf.example"},
+		DNSNames:     []string{strings.ToLower(name) + ".leaf.example", "www.leaf.example"},
 		IPAddresses:  []net.IP{net.IPv4(192, 0, 2, 1)},
 	}
 	der, err := stdx509.CreateCertificate(rand.Reader, tmpl, tmpl, k.Public(), k)
